@@ -166,7 +166,21 @@ func runC06(c *Ctx) {
 		ps := g.ParamExprs(nmr)
 		badF, rewF := filterRoles(c, nmr, K["OptionBadfilter"])
 		loops := loopsOf(nmr)
-		filtered := func(e *E, param *E) bool {
+		var filtered func(e *E, param *E) bool
+		filtered = func(e *E, param *E) bool {
+			// a fast path for the empty input: "if len(param) == 0 { return param }" hands back an empty
+			// list, which is what the filters make of it
+			if e != nil && e.Op == "ite" {
+				for leaf, lc := range u.Leaves(e) {
+					if leaf == param && u.bdd.Implies(lc, u.ToBool(u.Eq(u.Len(param), u.Int(0)))) {
+						continue
+					}
+					if leaf.Op == "ite" || !filtered(leaf, param) {
+						return false
+					}
+				}
+				return true
+			}
 			// e = X(Y(param)) with {X,Y} = {bad, rew}
 			if badF == nil || rewF == nil || e == nil || e.Op != "call" || len(e.Args) == 0 || e.Args[0].Op != "call" || len(e.Args[0].Args) == 0 {
 				return false
@@ -446,8 +460,23 @@ func runC06(c *Ctx) {
 			if ro != nil {
 				coll = s.Env[ro.Coll]
 			}
-			okF := badF != nil && rewF != nil && coll != nil && coll.Op == "call" && len(coll.Args) > 0 && coll.Args[0].Op == "call" && len(coll.Args[0].Args) > 0 && coll.Args[0].Args[0] == ps[0] &&
-				((coll.Aux == calleeName(rewF) && coll.Args[0].Aux == calleeName(badF)) || (coll.Aux == calleeName(badF) && coll.Args[0].Aux == calleeName(rewF)))
+			okF1 := func(coll *E) bool {
+				return badF != nil && rewF != nil && coll != nil && coll.Op == "call" && len(coll.Args) > 0 && coll.Args[0].Op == "call" && len(coll.Args[0].Args) > 0 && coll.Args[0].Args[0] == ps[0] &&
+					((coll.Aux == calleeName(rewF) && coll.Args[0].Aux == calleeName(badF)) || (coll.Aux == calleeName(badF) && coll.Args[0].Aux == calleeName(rewF)))
+			}
+			okF := okF1(coll)
+			if !okF && coll != nil && coll.Op == "ite" {
+				// fast path for the empty input (see NewMatchingResult above)
+				okF = true
+				for leaf, lc := range u.Leaves(coll) {
+					if leaf == ps[0] && u.bdd.Implies(lc, u.ToBool(u.Eq(u.Len(ps[0]), u.Int(0)))) {
+						continue
+					}
+					if !okF1(leaf) {
+						okF = false
+					}
+				}
+			}
 			cand, inc := call.Args[0], call.Args[1]
 			// the rewrite filter may be fused into the scan: the loop ranges over the badfilter-filtered
 			// rules and looks only at candidates without a rewrite (judged below, once the decisions of
